@@ -1,5 +1,6 @@
-(** C08 — totality.  Proved: (strings, matching) [c08_string_run_total] — on every
-    automaton that passes wf_check and arity_ok the modelled traversal never
+(** C08 — totality.  Proved: (strings and matrices, matching) [c08_string_run_total],
+    [c08_matrix_run_total] — on every automaton that passes wf_check and arity_ok
+    (matrices: and whose keys are non-negative) the modelled traversal never
     reaches a panic site and terminates: for every host there is a fuel bound
     beyond which [run] returns [Ok] (the measure: items weigh (B+1)^(rmax - rank)
     with B a bound on the successors of one item, so the queue gets lighter at
@@ -7,14 +8,14 @@
     toposort terminates without panic on closed graphs (the builder's driver);
     the repaired default retain_keys never panics on prerequisite-closed key
     sets for the string and matrix maps.  Construction as a whole, and matching
-    on matrices and port graphs, are decided by exploration: every generated
+    on port graphs, are decided by exploration: every generated
     and degenerate case of every other property is run under catch_unwind
     (overflow and debug assertions enabled) with a wall-clock limit, and the
     Ok/Panic status of the model's traversal on the dumped automaton is compared
     with the implementation's. *)
 From PM Require Import Model.Prelude Model.Domain Model.BindMaps Model.DomString Model.DomMatrix
   Model.Automaton Model.Traversal Cert.WfCheck Cert.ExampleAut
-  Model.Toposort Proofs.ToposortProofs Proofs.BindMapHistories Proofs.BindMapMatrixProofs Proofs.StringTotal.
+  Model.Toposort Proofs.ToposortProofs Proofs.BindMapHistories Proofs.BindMapMatrixProofs Proofs.StringTotal Proofs.MatrixTotal Cert.CharCert.
 
 Theorem c08_toposort_next_total_partial :
   forall g order, t_closed g ->
@@ -36,11 +37,19 @@ Theorem c08_string_run_total :
     exists fuel0, forall fuel, (fuel0 <= fuel)%nat -> exists ms, run string_dom fuel A h = Ok ms.
 Proof. exact s_run_total. Qed.
 
+(** matrices: matching never panics and terminates (keys non-negative) *)
+Theorem c08_matrix_run_total :
+  forall (A : automaton mkey cpredicate) (rk : list (N * nat)) (ids : list N) (h : mhost),
+    wf_check matrix_dom A rk ids = true -> arity_ok matrix_dom A = true -> m_keys_nn A = true ->
+    exists fuel0, forall fuel, (fuel0 <= fuel)%nat -> exists ms, run matrix_dom fuel A h = Ok ms.
+Proof. exact m_run_total. Qed.
+
 Example c08_example :
   wf_check string_dom ex_aut (compute_rank ex_aut) [0; 1; 2]%N = true /\ arity_ok string_dom ex_aut = true.
 Proof. vm_compute. auto. Qed.
 
 Print Assumptions c08_toposort_next_total_partial.
 Print Assumptions c08_string_run_total.
+Print Assumptions c08_matrix_run_total.
 Print Assumptions c08_string_retain_total_partial.
 Print Assumptions c08_matrix_retain_total_partial.
